@@ -92,7 +92,7 @@ def cases(ctx):
     rng = ctx.rng
     # catalogue sweep: every form x admissible class, several variants
     combos = [(f["id"], c) for f in S.CATALOGUE for c in f["classes"]]
-    reps = ctx.pick(2, 40)
+    reps = ctx.pick(8, 80)
     i = 0
     for rep in range(reps):
         for fid, cls in combos:
@@ -103,7 +103,7 @@ def cases(ctx):
                    "salt": rng.choice(["saltForTest", "x", "Q", "zz9", "netconan"]),
                    "spec": [{"form": fid, "cls": [cls] * S.nslots(S.BY_ID[fid]), "ids": list(range(S.nslots(S.BY_ID[fid])))}]}
     # multi-line documents with repetition patterns
-    for _ in range(ctx.per_shard(ctx.pick(200, 12000))):
+    for _ in range(ctx.per_shard(ctx.pick(800, 20000))):
         nlines = rng.randint(2, 40)
         nid = rng.randint(1, 6)
         idcls = [rng.choice(S.CLASSES) for _ in range(nid)]
@@ -152,7 +152,7 @@ def make_texts(case):
                         n = md5len.setdefault(sid, random.Random("%s-%s" % (case["sseed"], sid)).randint(1, 8))
                         secrets[sid] = S.md5_secret(vr, n)
                     else:
-                        secrets[sid] = S.gen_secret(vr, cls, plain_alpha=form["plain"])
+                        secrets[sid] = S.gen_secret(vr, cls, plain_alpha=form["plain"], reserved_variants=True)
                 sec = secrets[sid]
                 if cls == "j9":
                     # same salt character / filler structure in both valuations (the replacement must not
